@@ -7,6 +7,11 @@ Structure of the check (hash-seed variation needs fresh interpreters):
             derived attributes - init=False with a default, a factory or an attrs `takes_self` default - whose names
             coincide with (mostly required, discriminating) attributes of other members: BaseConverter's unstructure emits
             them, Converter's does not, and the model is fed the payload the converter really produced),
+            30 % with value types beyond int (str, list[int], dict[str, int], small attrs classes / dataclasses) whose
+            DEFAULT VALUES are plain objects of every kind - unhashable ones included ([] {} Pt(0, 0): legal attrs
+            defaults) - 25 % with members written as PARAMETRISATIONS `K[arg]` of generic attrs classes / dataclasses
+            (T- and list[T]-typed attributes, TypeVars plain or with a PEP 696 default; the disambiguator works on the
+            origin and must hand back the member as written; the model sees the origin's attributes),
             member instances, payload variants and the member orders to try (all for n <= 4, sampled beyond);
   workers : one subprocess per PYTHONHASHSEED; each receives the whole batch as JSON on stdin, realises the classes,
             and for every (layout, order) — with a FRESH converter — reports whether the union hook can be created and
@@ -15,6 +20,10 @@ Structure of the check (hash-seed variation needs fresh interpreters):
             P1  oracle "never wrong": the result for a payload of member k is an instance of member k (equal to the
                 instance for a full unstructured form), or None for None, or a refusal — never another member;
             P2  oracle "independent of order and hash seed": one outcome per payload over all orders x seeds;
+            P3  oracle "refuses only when the members cannot be told apart": when an independent reference (`told_apart`:
+                pairwise disjoint values of a common Literal field, or a required attribute of its own for every member but
+                one) says they can, the full unstructured form of a member that the member's own hook accepts must not
+                be refused, neither at hook creation nor while structuring;
             C   correspondence: implementation outcome == model outcome, per (layout, order, seed, payload).
 
 Layouts with rename overrides are custom configuration (outside C12): only the correspondence is evaluated on them.
@@ -29,6 +38,8 @@ import sys
 import time
 
 STR_POOL = ["p", "q", "r", "s"]
+PT_TYPES = ("pt", "dpt", "fpt")
+UNHASHABLE = ("list", "dict", "pt", "dpt", "listT")          # types whose values cannot be hashed
 NAMES = ["a", "b", "c", "d", "e", "f"]
 RENAME_EXTRA = ["g", "h"]
 
@@ -37,44 +48,107 @@ RENAME_EXTRA = ["g", "h"]
 # worker (runs under a given PYTHONHASHSEED; imports cattrs from CATTRS_SRC)
 # =====================================================================================================
 
+_WT = {}
+
+
+def _worker_types():
+    """value types of non-Literal fields: `int`, `str`, containers, and small classes whose INSTANCES serve as default
+    values (Pt / DPt: eq without hash - unhashable like a list or dict literal; FPt: frozen, hashable)"""
+    if not _WT:
+        import dataclasses
+
+        import attr
+
+        Pt = attr.make_class("C12Pt", {"x": attr.ib(type=int), "y": attr.ib(type=int)})
+        DPt = dataclasses.make_dataclass("C12DPt", [("x", int), ("y", int)])
+        FPt = attr.make_class("C12FPt", {"x": attr.ib(type=int), "y": attr.ib(type=int)}, frozen=True)
+        _WT.update({"int": int, "str": str, "list": list[int], "dict": dict[str, int], "pt": Pt, "dpt": DPt, "fpt": FPt})
+    return _WT
+
+
+def _worker_val(ty, v):
+    """the Python value a JSON value spec stands for"""
+    if ty in PT_TYPES:
+        return _worker_types()[ty](**v)
+    if ty == "list":
+        return list(v)
+    if ty == "dict":
+        return dict(v)
+    return v
+
+
 def _worker_realise(L, tag):
+    """returns (classes, members): the realised classes and what is written in the Union for each of them (the class,
+    or its parametrisation `K[arg]` for a generic class)"""
     import dataclasses
-    from typing import Literal
+    from typing import Generic, Literal, TypeVar
 
     import attr
 
-    classes = []
+    WT = _worker_types()
+    classes, members = [], []
     for ci, c in enumerate(L["classes"]):
         name = f"C12{tag}L{str(L['id']).replace('-', 'n')}K{ci}"
+        g = c.get("generic")
+        tv = None
+        if g:
+            if g["tv"] == "dflt":     # PEP 696: a bare generic class silently uses the default
+                from typing_extensions import TypeVar as TypeVarD
+
+                tv = TypeVarD("T", default=WT[g["dflt"]])
+            else:
+                tv = TypeVar("T")
+        bases = (Generic[tv],) if g else ()
+
+        def pyty(f):
+            if f["lit"] is not None:
+                return Literal[tuple(f["lit"])]
+            t = f.get("ty", "int")
+            if t == "T":
+                return tv
+            if t == "listT":
+                return list[tv]
+            return WT[t]
+
+        def ety(f):
+            """the type of the field's VALUE SPEC (T resolved to the argument of the parametrisation)"""
+            t = f.get("ty", "int")
+            return g["arg"] if t == "T" else t
+
         if c["kind"] == "attrs":
             attribs = {}
             for f in c["fields"]:
-                ty = Literal[tuple(f["lit"])] if f["lit"] is not None else int
+                ty = pyty(f)
                 kw = {"init": False} if f.get("init") is False else {}
                 if f["dflt"] == "req":
                     attribs[f["name"]] = attr.ib(type=ty)
-                elif f["dflt"] == "const":
-                    attribs[f["name"]] = attr.ib(type=ty, default=f["dv"], **kw)
+                elif f["dflt"] == "const":      # a plain object as default VALUE (possibly unhashable: [] {} Pt(0, 0))
+                    attribs[f["name"]] = attr.ib(type=ty, default=_worker_val(ety(f), f["dv"]), **kw)
                 elif f["dflt"] == "self":       # `@x.default def _(self): ...`
-                    attribs[f["name"]] = attr.ib(type=ty, default=attr.Factory(lambda self, v=f["dv"]: v, takes_self=True),
-                                                 **kw)
+                    attribs[f["name"]] = attr.ib(
+                        type=ty, default=attr.Factory(lambda self, t=ety(f), v=f["dv"]: _worker_val(t, v), takes_self=True), **kw)
                 else:
-                    attribs[f["name"]] = attr.ib(type=ty, default=attr.Factory(lambda v=f["dv"]: v), **kw)
-            cl = attr.make_class(name, attribs)
+                    attribs[f["name"]] = attr.ib(type=ty, default=attr.Factory(lambda t=ety(f), v=f["dv"]: _worker_val(t, v)), **kw)
+            cl = attr.make_class(name, attribs, bases=bases or (object,))
         else:
             fs = []
             for f in c["fields"]:
-                ty = Literal[tuple(f["lit"])] if f["lit"] is not None else int
+                ty = pyty(f)
                 kw = {"init": False} if f.get("init") is False else {}
                 if f["dflt"] == "req":
                     fs.append((f["name"], ty))
                 elif f["dflt"] == "const":
-                    fs.append((f["name"], ty, dataclasses.field(default=f["dv"], **kw)))
+                    fs.append((f["name"], ty, dataclasses.field(default=_worker_val(ety(f), f["dv"]), **kw)))
                 else:
-                    fs.append((f["name"], ty, dataclasses.field(default_factory=lambda v=f["dv"]: v, **kw)))
-            cl = dataclasses.make_dataclass(name, fs)
+                    fs.append((f["name"], ty, dataclasses.field(default_factory=lambda t=ety(f), v=f["dv"]: _worker_val(t, v), **kw)))
+            cl = dataclasses.make_dataclass(name, fs, bases=bases)
         classes.append(cl)
-    return classes
+        members.append(cl[WT[g["arg"]]] if g else cl)
+    return classes, members
+
+
+def _field(c, name):
+    return next(f for f in c["fields"] if f["name"] == name)
 
 
 def _worker_converter(L, classes):
@@ -95,7 +169,7 @@ def _worker_layout(L, tag):
     import linecache
     from typing import Union
 
-    classes = _worker_realise(L, tag)
+    classes, members_ty = _worker_realise(L, tag)
     cu = _worker_converter(L, classes)
     insts, payloads = [], []
     for pl in L["payloads"]:
@@ -104,16 +178,32 @@ def _worker_layout(L, tag):
             payloads.append(None)
             continue
         cl = classes[pl["member"]]
-        x = cl(**pl["args"])
-        u = cu.unstructure(x)
+        c = L["classes"][pl["member"]]
+        tys = {f["name"]: (c["generic"]["arg"] if f.get("ty") in ("T", "listT") else f.get("ty", "int")) for f in c["fields"]}
+        x = cl(**{k: ([_worker_val(tys[k], e) for e in v] if _field(c, k).get("ty") == "listT" else _worker_val(tys[k], v))
+                  for k, v in pl["args"].items()})
+        # (a parametrised member is unstructured AS the member: a bare generic instance carries no type arguments)
+        u = cu.unstructure(x, unstructure_as=members_ty[pl["member"]]) if c.get("generic") else cu.unstructure(x)
         if not isinstance(u, dict):
             raise RuntimeError("unstructure did not return a dict")
         u = {k: v for k, v in u.items() if k not in pl["omit"]}
         insts.append(x)
         payloads.append(u)
-    res = {"payloads": payloads, "orders": []}
+    # baseline for the told-apart oracle: does the member's OWN hook accept the form (no union involved)?
+    direct = []
+    cd = _worker_converter(L, classes)
+    for pl, u in zip(L["payloads"], payloads):
+        if u is None:
+            direct.append(True)
+            continue
+        try:
+            cd.structure(dict(u), members_ty[pl["member"]])
+            direct.append(True)
+        except Exception:  # noqa: BLE001 - e.g. a required key was omitted
+            direct.append(False)
+    res = {"payloads": payloads, "direct": direct, "orders": []}
     for order in L["orders"]:
-        members = tuple(type(None) if m < 0 else classes[m] for m in order)
+        members = tuple(type(None) if m < 0 else members_ty[m] for m in order)
         U = Union[members]
         conv = _worker_converter(L, classes)
         exc = []
@@ -215,6 +305,35 @@ def gen_layout(rng, lid, tier):
             for cj, c in enumerate(classes):
                 c["fields"] = [f for f in c["fields"] if f["name"] != nm]
             classes[ci]["fields"].insert(0, {"name": nm, "key": nm, "lit": None, "dflt": "req", "dv": None})
+    conv = None
+    flavour = rng.random()
+    if flavour < 0.30:
+        # value types beyond int: containers and small classes, so that DEFAULT VALUES are plain objects of every kind
+        # (unhashable: [] {} Pt(0, 0) - legal attrs defaults; a dataclass needs a default_factory for those)
+        for c in classes:
+            for f in c["fields"]:
+                if f["lit"] is None and rng.random() < 0.6:
+                    f["ty"] = rng.choice(["list", "dict", "pt", "dpt", "fpt", "str"])
+                    if f["dflt"] != "req":
+                        f["dflt"] = rng.choice(["const", "const", "const", "factory"] + (["self"] if c["kind"] == "attrs" else []))
+                        if c["kind"] == "dc" and f["ty"] in UNHASHABLE and f["dflt"] == "const":
+                            f["dflt"] = "factory"
+                        f["dv"] = gen_val(rng, f["ty"], small=True)
+    elif flavour < 0.55 and not renames:
+        # members written as PARAMETRISATIONS K[arg] of generic classes (the disambiguator works on the origin and must hand
+        # back the member as written); TypeVars plain or with a PEP 696 default (then a bare K is structurable - wrongly)
+        conv = rng.choice(["gen", "gen", "base"])
+        for c in classes:
+            cand = [f for f in c["fields"] if f["lit"] is None]
+            if cand and rng.random() < 0.7:
+                arg = rng.choice(["int", "str", "list"] + (["pt", "pt"] if conv == "gen" else []))
+                c["generic"] = {"tv": rng.choice(["plain", "dflt"]), "arg": arg,
+                                "dflt": rng.choice([a for a in ("int", "str") if a != arg])}
+                for f in rng.sample(cand, rng.choice([1, 1, 2]) if len(cand) > 1 else 1):
+                    f["ty"] = "listT" if (conv == "gen" and rng.random() < 0.25) else "T"
+                    if f["dflt"] != "req":
+                        f["dflt"] = "factory"
+                        f["dv"] = [] if f["ty"] == "listT" else gen_val(rng, arg, small=True)
     init_false = rng.random() < 0.3
     if init_false:
         # derived attributes (init=False, with a default): their NAMES coincide with attributes - preferably required,
@@ -235,7 +354,8 @@ def gen_layout(rng, lid, tier):
             classes[a]["fields"].append({"name": g["name"], "key": g["name"], "lit": None,
                                          "dflt": rng.choice(["const", "factory", "self"] if kind == "attrs" else ["const", "factory"]),
                                          "dv": rng.choice([0, 1, 2]), "init": False})
-    L = {"id": lid, "conv": rng.choice(["gen", "base"] if init_false else ["gen", "gen", "base"]), "has_none": has_none,
+    conv0 = rng.choice(["gen", "base"] if init_false else ["gen", "gen", "base"])
+    L = {"id": lid, "conv": conv or conv0, "has_none": has_none,
          "renames": renames, "classes": classes}
     # payloads: per member one instance with every field given, one with the defaults taken, plus omission variants
     payloads = []
@@ -247,7 +367,7 @@ def gen_layout(rng, lid, tier):
             for f in c["fields"]:
                 if (mode == "defaults" and f["dflt"] != "req") or f.get("init") is False:
                     continue
-                args[f["name"]] = rng.choice(f["lit"]) if f["lit"] is not None else rng.choice([0, 1, 2])
+                args[f["name"]] = rng.choice(f["lit"]) if f["lit"] is not None else field_val(rng, c, f)
             payloads.append({"member": ci, "args": args, "omit": [], "variant": "full"})
             omittable = [f["key"] for f in c["fields"] if f["dflt"] != "req" and not dreq(c, f)]
             if omittable and rng.random() < 0.7:
@@ -271,6 +391,28 @@ def gen_layout(rng, lid, tier):
             p.insert(rng.randint(0, len(p)), -1)
     L["orders"] = perms
     return L
+
+
+def gen_val(rng, ty, small=False):
+    """JSON value spec of a value of type `ty`"""
+    if ty == "int":
+        return rng.choice([0, 1, 2])
+    if ty == "str":
+        return rng.choice(STR_POOL)
+    if ty in ("list", "listT"):
+        return [] if small and rng.random() < 0.6 else [rng.choice([0, 1, 2]) for _ in range(rng.randint(1, 2))]
+    if ty == "dict":
+        return {} if small and rng.random() < 0.6 else {rng.choice(STR_POOL): rng.choice([0, 1, 2])}
+    return {"x": rng.choice([0, 1, 2]), "y": rng.choice([0, 1])}
+
+
+def field_val(rng, c, f):
+    ty = f.get("ty", "int")
+    if ty == "T":
+        return gen_val(rng, c["generic"]["arg"])
+    if ty == "listT":
+        return [gen_val(rng, c["generic"]["arg"]) for _ in range(rng.randint(0, 2))]
+    return gen_val(rng, ty)
 
 
 def dreq(c, f):
@@ -307,7 +449,9 @@ def table_sx(L):
 def payload_sx(u):
     if u is None:
         return "N"
-    return "(" + " ".join(f"({esc(k)} {vcode(v)})" for k, v in u.items()) + ")"
+    # the model looks at keys, and at VALUES only under Literal-typed keys: containers / nested forms are coded 0
+    return "(" + " ".join(f"({esc(k)} {vcode(v) if isinstance(v, (int, str)) and not isinstance(v, bool) else 0})"
+                          for k, v in u.items()) + ")"
 
 
 def model_query(drv, L, order, payloads):
@@ -337,7 +481,8 @@ def model_query(drv, L, order, payloads):
 def run_workers(layouts, seeds, tag):
     """one subprocess per hash seed, all in parallel; returns {seed: results}"""
     env0 = dict(os.environ)
-    env0["PYTHONPATH"] = "/verif:" + os.environ.get("CATTRS_SRC", "/repo/src")
+    root = os.path.dirname(os.path.dirname(os.path.dirname(os.path.abspath(__file__))))     # the tree this check runs from
+    env0["PYTHONPATH"] = root + ":" + os.environ.get("CATTRS_SRC", "/repo/src")
     env0["PYTHONDONTWRITEBYTECODE"] = "1"
     data = json.dumps({"tag": tag, "layouts": layouts})
     procs = []
@@ -374,10 +519,32 @@ def canon(code):
     return ":".join(code.split(":")[:2]) if code.startswith("ok:") else code
 
 
+def told_apart(L):
+    """Independent reference, written from the statement, for "the members CAN be told apart by a unique required field
+    or a literal-valued field" (a sufficient condition; None = no claim):
+      literal : some attribute is Literal-typed in EVERY member and the members' value sets are pairwise disjoint;
+      unique  : every member but at most one (the single fallback) has a required attribute whose name no other member
+                uses at all."""
+    cs = L["classes"]
+    n = len(cs)
+    names = [{f["name"] for f in c["fields"]} for c in cs]
+    for nm in sorted(set.intersection(*names)) if n >= 2 else []:
+        lits = [_field(c, nm)["lit"] for c in cs]
+        if all(l is not None for l in lits) and all(not (set(a) & set(b)) for a, b in itertools.combinations(lits, 2)):
+            return f"the literal-valued field {nm!r}"
+    without = 0
+    for i, c in enumerate(cs):
+        others = set().union(*[names[j] for j in range(n) if j != i]) if n > 1 else set()
+        if not any(f["dflt"] == "req" and f.get("init") is not False and f["name"] not in others for f in c["fields"]):
+            without += 1
+    return "unique required fields (single fallback)" if without <= 1 else None
+
+
 def judge(L, wres, seeds):
     """Oracles P1 and P2 on the implementation results of one layout.  Returns list of (what, detail)."""
     bad = []
     lid = str(L["id"])
+    apart = told_apart(L)
     per_payload = [dict() for _ in L["payloads"]]
     for s in seeds:
         R = wres[s]["results"][lid]
@@ -399,39 +566,67 @@ def judge(L, wres, seeds):
                         bad.append(("never-wrong", f"payload #{pi} of member {k}: result differs from the instance "
                                                    f"(order {order}, PYTHONHASHSEED={s})"))
                 elif code in ("rr", "rc"):
-                    pass
+                    # P3: a refusal is what the statement asks for only "when the members cannot be told apart"
+                    if apart and pl["variant"] == "full" and R["direct"][pi]:
+                        bad.append(("refused-although-told-apart",
+                                    f"payload #{pi} (full unstructured form of member {k}) was refused "
+                                    f"({'while structuring' if code == 'rr' else 'at hook creation'}: {O['exc']}) although the "
+                                    f"members are told apart by {apart} (order {order}, PYTHONHASHSEED={s})"))
                 else:
                     bad.append(("never-wrong", f"payload #{pi} of member {k} gave {code} (order {order}, PYTHONHASHSEED={s})"))
+    dep = []
     for pi, seen in enumerate(per_payload):
         if len(seen) > 1:
             desc = "; ".join(f"{c} at order {o} PYTHONHASHSEED={s}" for c, (s, o) in sorted(seen.items()))
-            bad.append(("order/seed-dependence", f"payload #{pi} (member {L['payloads'][pi]['member']}): {desc}"))
-    return bad
+            dep.append(("order/seed-dependence", f"payload #{pi} (member {L['payloads'][pi]['member']}): {desc}"))
+    return dep[:1] + bad[:2] + dep[1:] + bad[2:]
+
+
+_TY_SRC = {"int": "int", "str": "str", "list": "list[int]", "dict": "dict[str, int]", "pt": "Pt", "dpt": "DPt", "fpt": "FPt",
+           "T": "T", "listT": "list[T]"}
+
+
+def val_source(ty, v):
+    if ty in PT_TYPES:
+        return f"{_TY_SRC[ty]}({v['x']}, {v['y']})"
+    return repr(v)
 
 
 def layout_source(L):
     """Python source of the realised classes (for replays / reports)"""
     lines = []
+    used = {f.get("ty") for c in L["classes"] for f in c["fields"]} | {(c.get("generic") or {}).get("arg") for c in L["classes"]}
+    if used & set(PT_TYPES):
+        lines.append("# Pt: @attrs.define (x: int, y: int; eq, unhashable)   DPt: @dataclass (same; unhashable)   "
+                     "FPt: @attrs.frozen (hashable)")
     for ci, c in enumerate(L["classes"]):
         deco = "@attrs.define" if c["kind"] == "attrs" else "@dataclasses.dataclass"
-        lines.append(f"{deco}\nclass K{ci}:")
+        g = c.get("generic")
+        if g:
+            lines.append(f"T = TypeVar('T'" + (f", default={g['dflt']})   # typing_extensions, PEP 696" if g["tv"] == "dflt" else ")"))
+        lines.append(f"{deco}\nclass K{ci}{'(Generic[T])' if g else ''}:" + (f"      # union member: K{ci}[{_TY_SRC[g['arg']]}]" if g else ""))
         if not c["fields"]:
             lines.append("    pass")
         for f in c["fields"]:
-            ty = "Literal[" + ", ".join(repr(v) for v in f["lit"]) + "]" if f["lit"] is not None else "int"
+            fty = f.get("ty", "int")
+            ety = g["arg"] if fty == "T" else fty
+            ty = "Literal[" + ", ".join(repr(v) for v in f["lit"]) + "]" if f["lit"] is not None else _TY_SRC[fty]
+            dv = val_source(ety, f["dv"]) if f["dflt"] != "req" else None
             d = ""
             if f["dflt"] == "const":
-                d = f" = {f['dv']!r}"
+                d = f" = {dv}"
             elif f["dflt"] == "factory":
-                d = (f" = attrs.Factory(lambda: {f['dv']!r})" if c["kind"] == "attrs"
-                     else f" = dataclasses.field(default_factory=lambda: {f['dv']!r})")
+                d = (f" = attrs.Factory(lambda: {dv})" if c["kind"] == "attrs"
+                     else f" = dataclasses.field(default_factory=lambda: {dv})")
+            elif f["dflt"] == "self":
+                d = f" = attrs.Factory(lambda self: {dv}, takes_self=True)"
             if f.get("init") is False:
                 mod = "attrs.field" if c["kind"] == "attrs" else "dataclasses.field"
-                d = (f" = {mod}(init=False, default={f['dv']!r})" if f["dflt"] == "const" else
-                     f" = attrs.field(init=False, default=attrs.Factory(lambda self: {f['dv']!r}, takes_self=True))"
+                d = (f" = {mod}(init=False, default={dv})" if f["dflt"] == "const" else
+                     f" = attrs.field(init=False, default=attrs.Factory(lambda self: {dv}, takes_self=True))"
                      if f["dflt"] == "self" else
-                     f" = attrs.field(init=False, factory=lambda: {f['dv']!r})" if c["kind"] == "attrs" else
-                     f" = dataclasses.field(init=False, default_factory=lambda: {f['dv']!r})")
+                     f" = attrs.field(init=False, factory=lambda: {dv})" if c["kind"] == "attrs" else
+                     f" = dataclasses.field(init=False, default_factory=lambda: {dv})")
             rn = f"   # renamed to {f['key']!r}" if f["key"] != f["name"] else ""
             lines.append(f"    {f['name']}: {ty}{d}{rn}")
     lines.append(f"# converter: {'Converter' if L['conv'] == 'gen' else 'BaseConverter'}(); None member: {L['has_none']}")
@@ -488,6 +683,29 @@ def fixed_layouts():
         sq = {"kind": kind, "fields": [fld("a"), dict(fld("b", dflt="const", dv=2), init=False)]}
         out.append(mk(lid, [sq, {"kind": kind, "fields": [fld("b")]}, {"kind": "attrs", "fields": [fld("c")]}],
                       [full(0, a=2), full(1, b=4), full(2, c=1)], conv=conv))
+    # members written as parametrisations of generic classes, told apart by a common Literal tag (Created[Pt] | Deleted[int] |
+    # Ping) or by unique fields; TypeVar plain / with a PEP 696 default; attrs and dataclass
+    def gfld(name, ty="T", **kw):
+        return dict(fld(name, **kw), ty=ty)
+
+    for lid, tv, kind in ((-11, "plain", "attrs"), (-12, "dflt", "attrs"), (-13, "dflt", "dc")):
+        out.append(mk(lid, [{"kind": kind, "generic": {"tv": tv, "arg": "pt", "dflt": "str"},
+                             "fields": [gfld("a"), fld("e", ["p"], dflt="const", dv="p")]},
+                            {"kind": kind, "generic": {"tv": tv, "arg": "int", "dflt": "str"},
+                             "fields": [gfld("a"), fld("e", ["q"], dflt="const", dv="q")]},
+                            {"kind": "attrs", "fields": [fld("e", ["r"], dflt="const", dv="r")]}],
+                      [full(0, a={"x": 1, "y": 2}), full(1, a=2), full(2)], has_none=lid == -12))
+    out.append(mk(-14, [{"kind": "attrs", "generic": {"tv": "dflt", "arg": "int", "dflt": "str"}, "fields": [gfld("a")]},
+                        {"kind": "dc", "generic": {"tv": "plain", "arg": "str", "dflt": "int"}, "fields": [gfld("b", ty="listT")]}],
+                  [full(0, a=2), full(1, b=["p", "q"])]))
+    # default VALUES that are plain unhashable objects, next to a required attribute of the member's own
+    # (Sprite{name, anchor=Pt(0, 0), frames=[]} | Sound{path, tags={}} | Marker{})
+    out.append(mk(-15, [{"kind": "attrs", "fields": [fld("a"), gfld("b", ty="pt", dflt="const", dv={"x": 0, "y": 0}),
+                                                     gfld("c", ty="list", dflt="const", dv=[])]},
+                        {"kind": "attrs", "fields": [fld("d"), gfld("e", ty="dict", dflt="const", dv={})]},
+                        {"kind": "dc", "fields": [gfld("f", ty="dpt", dflt="factory", dv={"x": 1, "y": 1})]}],
+                  [full(0, a=1), full(0, a=1, b={"x": 1, "y": 2}, c=[1]), full(1, d=2), full(1, d=2, e={"p": 1}), full(2)],
+                  has_none=True))
     return out
 
 
@@ -542,7 +760,11 @@ def evaluate(chk, drv, layouts, wres, seeds, count=True):
                      "renames" if L["renames"] else "default-config",
                      "init-false-attr:" + ("yes" if any(f.get("init") is False for c in L["classes"] for f in c["fields"])
                                            else "no"),
-                     "shared-payload" if shared else "distinct-payloads")
+                     "shared-payload" if shared else "distinct-payloads",
+                     "generic-members:" + str(min(3, sum(1 for c in L["classes"] if c.get("generic")))),
+                     "unhashable-default-values:" + ("yes" if any(
+                         f["dflt"] == "const" and f.get("ty", "int") in UNHASHABLE for c in L["classes"] for f in c["fields"]) else "no"),
+                     "told-apart:" + (str(told_apart(L)).split(" ")[0] if not L["renames"] else "n/a"))
             for c in L["classes"]:
                 chk.note("kind:" + c["kind"])
             if len(chk.samples) < 5:
@@ -568,7 +790,10 @@ def neighbours(L, rng, base_id):
                 cs = json.loads(json.dumps(L["classes"]))
                 g = cs[ci]["fields"][fi]
                 if g["dflt"] == "req":
-                    g["dflt"], g["dv"] = "const", 0
+                    gty = g.get("ty", "int")
+                    ety = cs[ci]["generic"]["arg"] if gty == "T" else gty
+                    g["dflt"] = "factory" if (gty in ("T", "listT") or (cs[ci]["kind"] == "dc" and gty in UNHASHABLE)) else "const"
+                    g["dv"] = [] if gty == "listT" else gen_val(rng, ety, small=True)
                     cs[ci]["fields"].sort(key=lambda h: h["dflt"] != "req")
                 else:
                     g["dflt"], g["dv"] = "req", None
@@ -580,7 +805,7 @@ def neighbours(L, rng, base_id):
         payloads = []
         for ci, c in enumerate(cs):
             for mode in ("all", "defaults"):
-                args = {f["name"]: (f["lit"][0] if f["lit"] is not None else 1) for f in c["fields"]
+                args = {f["name"]: (f["lit"][0] if f["lit"] is not None else field_val(rng, c, f)) for f in c["fields"]
                         if not (mode == "defaults" and f["dflt"] != "req") and f.get("init") is not False}
                 payloads.append({"member": ci, "args": args, "omit": [], "variant": "full"})
                 om = [f["key"] for f in c["fields"] if f["dflt"] != "req" and not dreq(c, f)]
@@ -595,7 +820,9 @@ def neighbours(L, rng, base_id):
 def generic_stream(chk, n_cases):
     """Implementation-only oracle for unions that contain PARAMETRISATIONS of generic classes (outside the Lean model):
     `Box[int] | Box[str]` (two members with the same fields) must be refused, never guessed; a parametrised member next
-    to distinguishable plain members must come back equal and of its class; one outcome over all member orders."""
+    to distinguishable plain members must come back equal and of its class; one outcome over all member orders.
+    Shape `literal-tagged`: parametrised generic members told apart by a common Literal tag must come back equal (field
+    values included) and must not be refused when the member's own hook round-trips the form."""
     import dataclasses
     import itertools as it
     from typing import Generic, TypeVar, Union
@@ -615,9 +842,40 @@ def generic_stream(chk, n_cases):
         others = []
         for k in range(rng.randint(0, 2)):
             others.append(attrs.make_class(f"{tag}O{k}", {f"u{k}": attrs.field(type=int)}))
-        shape = rng.choice(["two-params", "one-param", "param-and-origin-twin"])
+        shape = rng.choice(["two-params", "one-param", "param-and-origin-twin", "literal-tagged", "literal-tagged"])
         args = rng.sample([int, str, float, bool], 2)
-        if shape == "two-params":
+        tagged = None
+        if shape == "literal-tagged":
+            # events told apart by a common Literal tag, written as parametrisations (Created[Pt] | Moved[int] | Ping):
+            # attrs / dataclass generics, payload: T or list[T], TypeVar plain or with a PEP 696 default
+            from typing import Literal
+
+            from typing_extensions import TypeVar as TypeVarD
+
+            Pt = attrs.make_class(tag + "Pt", {"x": attrs.field(type=int), "y": attrs.field(type=int)})
+            vals = {int: [1, 2], str: ["a", "b"], float: [1.5], Pt: [Pt(1, 2), Pt(0, 0)]}
+            tname = rng.choice(["kind", "t"])
+            tagged, members = [], []
+            for k in range(rng.randint(2, 3)):
+                tvk = TypeVarD("T", default=rng.choice([str, int])) if rng.random() < 0.5 else TypeVar("T")
+                arg = rng.choice([int, str, float, Pt])
+                lst = rng.random() < 0.3
+                lit = Literal[f"k{k}"] if rng.random() < 0.7 else Literal[f"k{k}", f"kk{k}"]
+                if rng.random() < 0.5:
+                    cl = attrs.make_class(f"{tag}E{k}", {"payload": attrs.field(type=list[tvk] if lst else tvk),
+                                                         tname: attrs.field(type=lit, default=f"k{k}")}, bases=(Generic[tvk],))
+                else:
+                    cl = dataclasses.make_dataclass(f"{tag}E{k}", [("payload", list[tvk] if lst else tvk),
+                                                                   (tname, lit, dataclasses.field(default=f"k{k}"))],
+                                                    bases=(Generic[tvk],))
+                v = rng.choice(vals[arg])
+                members.append(cl[arg])
+                tagged.append((cl[arg], cl([v, rng.choice(vals[arg])] if lst else v)))
+            if rng.random() < 0.5:
+                Ping = attrs.make_class(tag + "Ping", {tname: attrs.field(type=Literal["ping"], default="ping")})
+                members.append(Ping)
+                tagged.append((Ping, Ping()))
+        elif shape == "two-params":
             members = [Box[args[0]], Box[args[1]]] + others
         elif shape == "one-param":
             members = [Box[args[0]]] + others
@@ -627,8 +885,8 @@ def generic_stream(chk, n_cases):
             Twin = attrs.make_class(tag + "Twin", {own: attrs.field(type=args[1])})
             members = [Box[args[0]], Twin] + others
         probe = {int: 1, str: "a", float: 1.5, bool: True}
-        insts = []
-        for m in members:
+        insts = list(tagged or [])
+        for m in ([] if tagged else members):
             origin = getattr(m, "__origin__", None)
             if origin is not None:
                 insts.append((m, origin(probe[m.__args__[0]])))
@@ -643,11 +901,21 @@ def generic_stream(chk, n_cases):
                 row = []
                 for m, x in insts:
                     try:
-                        u = conv.unstructure(x)
+                        u = conv.unstructure(x, unstructure_as=m)
                         r = conv.structure(u, U)
                         row.append("ok" if (type(r) is type(x) and r == x) else f"WRONG:{r!r}")
                     except Exception as e:  # noqa: BLE001 - refusal
                         row.append("refused")
+                        if tagged:
+                            # told apart by the tag (disjoint Literal values by construction): a refusal is legitimate
+                            # only if the member's own hook does not round-trip the form either
+                            try:
+                                c2 = conv_cls()
+                                own = c2.structure(c2.unstructure(x, unstructure_as=m), m) == x
+                            except Exception:  # noqa: BLE001
+                                own = False
+                            if own:
+                                row[-1] = f"WRONG:refused ({type(e).__name__}) although told apart by the Literal tag"
                 outcomes[(order, conv_cls.__name__)] = row
                 chk.count(("generic", tag, order, conv_cls.__name__))
                 chk.note("generic-stream:" + shape)
@@ -672,7 +940,7 @@ def run(chk):
 
     rng = chk.rng
     quick = chk.tier == "quick"
-    n_layouts = 700 if quick else 3500
+    n_layouts = 700 if quick else 3000
     seeds = [0, 1, 2] if quick else [0, 1, 2, 3, 4, 5, 6, 7]
     # hash seeds: fixed small ones plus seed-dependent ones
     seeds = seeds[:-1] + [100 + (chk.seed * 7919 + 13) % 4000]
@@ -721,7 +989,8 @@ def run(chk):
                     f"(model: create={M['create']} discriminator={M['lit']})\n" + layout_source(L),
                     case_of(L, order=order, impl=impl, model=M["out"]), found_input=False)
     chk.extra["rule"] = ("random overlapping layouts (2-6 attrs classes/dataclasses over 6 field names, defaults, Literal "
-                         "fields with overlapping values, optional None, 10% with renames) x all member orders (n<=4; "
+                         "fields with overlapping values, optional None, 10% with renames, 30% with container / class-typed attributes whose "
+                         "default values are plain (also unhashable) objects, 25% with parametrised generic members) x all member orders (n<=4; "
                          "sampled beyond) x payloads of every member (full, defaults taken, defaulted keys omitted) x "
                          "PYTHONHASHSEED subprocesses; distinct by (layout, order, payload)")
     chk.extra["corr_disagreements"] = len(corr_fail)
